@@ -58,11 +58,20 @@ def unpack_stub(I, run, args, kwargs, node):
     return App("ret", (C("struct.unpack"), C(run.seq)))
 
 
+_SIZES = {"B": 1, "H": 2, "I": 4, "L": 4, "Q": 8}
+
+
 def pack_stub(I, run, args, kwargs, node):
     fmt = I.resolve(run, args[0])
     if isinstance(fmt, C) and fmt.v in _FMT and len(args) == 2:
         order, n = _FMT[fmt.v]
         return App(order, (args[1], C(n)), "bytes")  # canonical: same term as x.to_bytes(n, 'big')
+    if isinstance(fmt, C) and isinstance(fmt.v, str) and fmt.v[:1] in "!><" and len(fmt.v) - 1 == len(args) - 1 \
+            and all(ch in _SIZES for ch in fmt.v[1:]):
+        # several unsigned fields, standard sizes, no padding: the concatenation of the single-field terms
+        from .values import concat
+        order = "le" if fmt.v[0] == "<" else "be"
+        return concat([App(order, (a, C(_SIZES[ch])), "bytes") for ch, a in zip(fmt.v[1:], args[1:])], "bytes")
     return App("pack", tuple(args), "bytes")
 
 
